@@ -951,7 +951,9 @@ def riders(prog, merge, prefixes, L, stats):
                 if after >= nxt:
                     bad.append(("empty-clause", f"{name} has no body in {sql[:100]}"))
                     break
-        if cls == "SQLLiteQuery" and prog["mode"] == "main" and not (set(ms) & SQLITE_UNSUPPORTED):
+        final = upto == len(prefixes) - 1 and upto == len(merge)
+        if cls == "SQLLiteQuery" and (prog["mode"] == "main" or final) and not (set(ms) & SQLITE_UNSUPPORTED):
+            # (scheduled-entry and cross-actor programs: only the final state, in which every source is in place)
             if ms["into"] and ms["select"] and prog["kind"] == "select":
                 continue
             stats["sqlite_prepared"] += 1
